@@ -623,7 +623,8 @@ CHECKS["C01"].update({
              "run), Utf8.lean / ParseBytes.lean (Lexer.__init__ on a bytes source: strict UTF-8 decoding, InvalidCharacter at the character offset of the "
              "first undecodable sequence, fix B8), Parse.lean / ParseExec / ParseTS / ParseDoc (every parse_* of lang/parser.py, many / any_ / "
              "delimited_list, the three flags, the three entry points; keyword and location tables re-extracted from parser.py), ParseText.lean "
-             "(Parser.__init__ + entry point = lexer then parser, with the error of either), StringUtils.lean (index_to_loc, highlight_location). "
+             "(Parser.__init__ + entry point = lexer then parser, with the error of either), ParseLazy.lean (the LAZY token window of Parser: tokens are "
+             "pulled on demand, so an earlier grammatical error hides a later lexical one), StringUtils.lean (index_to_loc, highlight_location). "
              "SPECIFICATION: Spec/Lexical.lean (June-2018 lexical grammar as recognisers of complete lexemes + the tiling relation Tiles / IgnRun / "
              "Follow), Spec/LexicalReadings.lean (the clauses of Follow that are READINGS of June 2018, each under its own name) and Spec/Grammar.lean "
              "(concrete-syntax views, WF, Matches). PROVED, lexer: lex_sound and lex_render (= lexAll_ok_iff: a text is accepted exactly when it is tiled "
@@ -632,7 +633,9 @@ CHECKS["C01"].update({
              "decode_encode, decode_ok_iff (the decoder accepts EXACTLY the encodings of texts of scalar values), parse_bytes_eq_text (parse(text.encode()) "
              "IS parse(text), all entry points and flags), parse_bytes_accepts_iff, decode_error_in_range, parse_bytes_total. Parser: parse_sound_document, parse_complete_document, parseDocument_accepts_iff, matched_document_unique (all 8 flag "
              "combinations; parseValue_* / parseType_* for the other two entry points). TEXT level: parse_text_accepts_iff / parse_text_result, "
-             "parse_value_text_result, parse_type_text_result. ERROR CLAUSE: parse_error_in_range, parse_text_error_in_range_partial, "
+             "parse_value_text_result, parse_type_text_result; lazy window: lazy_ok_iff (acceptance and the tree never depend on the window), "
+             "lazy_eq_eager_of_lexable, parse_text_lazy_error_in_range (every error the lazy parser reports is within the text except L6 on an OpenEscape "
+             "text), lazy_prefix_never_ok, lazy_differs (`} \"\\`: eager reports len+1, lazy the `}` at 0). ERROR CLAUSE: parse_error_in_range, parse_text_error_in_range_partial, "
              "parse_text_render_total, and the EXACT class of the one excluded case (L6), stated on the text with the lexical specification only: "
              "error_position_iff_open_escape (a lexer error is at len+1 EXACTLY WHEN the text ends inside an open quoted string with a truncated escape: "
              "OpenEscape = complete tokens and ignored runs, a quote, complete string characters, `\\` or `\\u` + at most 3 hex digits), open_escape_error, "
@@ -650,10 +653,9 @@ CHECKS["C01"].update({
              "only for texts of the OpenEscape class (independent text-level scanner), spec recognisers on single lexemes, ignored-run invariance, "
              "bytes = str, invalid UTF-8 rejected, named probes for LA1-LA4 and deep nesting."),
     "note": ("Trusted: Lean kernel; table extraction; generators; the Python canonicaliser of Node.to_dict(). Only exercised (not modelled): the "
-             "U+FFFD-replaced text carried by the error for invalid UTF-8, the exception classes and messages, the lazy token window of Parser (for a text "
-             "with a lexical error AFTER a grammatical one the real parser reports the grammatical one, the composed model the lexical one: either way a "
-             "syntax error, positions in range), CPython's recursion limit (named probe, finding P1). Error positions of rejected texts are proved in "
-             "range but not compared one by one. Residuals: L6 (len+1, pinned by test_lexer.py; rendering repaired; exact class proved), LA1-LA4 (readings "
+             "U+FFFD-replaced text carried by the error for invalid UTF-8, the exception classes and messages, CPython's recursion limit (named probe, finding P1). Error positions of rejected texts are proved in "
+             "range but not compared one by one (for texts with a lexical error the evidence COUNTS how often the reported position is the lazy / the "
+             "eager model's: coverage.lazy_window; never a failure). Residuals: L6 (len+1, pinned by test_lexer.py; rendering repaired; exact class proved), LA1-LA4 (readings "
              "of the June-2018 grammar pinned by the suite; graphql-js agrees), P1."),
     "technique": "Lean 4 proof (lexer soundness+completeness, grammar acceptance iff at text level, exact error-position class, UTF-8 round trip, tables) + extracted tables + text/token/AST correspondence",
 })
